@@ -391,3 +391,39 @@ def check_dwt_orth(cfg, sizes, rnd):
     (yl * gl).sum().__add__(sum((h * g).sum() for h, g in zip(yh, gh))).backward()
     ok, det = _close(inv((gl, gh)).detach().numpy(), x.grad.numpy(), 1e-9)
     return ok, 'orth dim=%d %s N=%d J=%d: inverse(g) vs backprop(g): %s' % (dim, w.name, N, J, det)
+
+
+@register('swt_forward')
+def check_swt_forward(cfg, sizes, rnd):
+    """real SWTForward vs pywt.swt2 (and circular-shift equivariance)"""
+    from pytorch_wavelets.dwt.transform2d import SWTForward
+    w = pywt.Wavelet(cfg['wave']) if cfg.get('wave') else _wave(sizes.get('Lc2', sizes.get('L2', 2)))
+    J = _sz(sizes, 'J', 2, 1, 3)
+    mh, mw = _sz(sizes, 'mh', 2, 1, 6), _sz(sizes, 'mw', 3, 1, 6)
+    H, W = mh * 2 ** J, mw * 2 ** J
+    rs = np.random.RandomState(rnd.randint(0, 10**6))
+    x = torch.tensor(rs.randn(1, 2, H, W))
+    kw = {'J': J, 'wave': w}
+    if cfg.get('mode') is not None:
+        kw['mode'] = cfg['mode']
+    try:
+        mod = build64(SWTForward, **kw)
+        out = mod(x)
+    except Exception as e:
+        return False, 'SWTForward(%s) raises %s: %s' % (kw.get('mode', 'default mode'), type(e).__name__, e)
+    ref = pywt.swt2(x.numpy(), w, level=J, axes=(-2, -1))
+    if len(out) != J:
+        return False, 'returns %d levels for J=%d' % (len(out), J)
+    for j in range(J):
+        cA, (cH, cV, cD) = ref[J - 1 - j]
+        want = np.stack([cA, cH, cV, cD], axis=2)
+        ok, det = _close(out[j].numpy(), want)
+        if not ok:
+            return False, 'SWTForward J=%d level %d %s HxW=%dx%d: %s' % (J, j + 1, w.name, H, W, det)
+    sh, sw = rnd.randint(1, H - 1) if H > 1 else 0, rnd.randint(1, W - 1) if W > 1 else 0
+    out2 = mod(torch.roll(x, (sh, sw), (-2, -1)))
+    for j in range(J):
+        ok, det = _close(out2[j].numpy(), torch.roll(out[j], (sh, sw), (-2, -1)).numpy())
+        if not ok:
+            return False, 'not shift-equivariant at level %d: %s' % (j + 1, det)
+    return True, 'SWTForward J=%d %s HxW=%dx%d ok' % (J, w.name, H, W)
